@@ -200,18 +200,21 @@ class MHLHistory:
         return all_paths
 
     def renamed_path_with_previous_path(self):
+        # maps every former path of a file to the path it is recorded under now; the generations are applied in
+        # order, so that renames over several generations compose (a -> b, later b -> c) and a path that is in use
+        # again (a -> b, later b -> a) is no longer redirected to one of its own former names
         all_paths = {}
         for hash_list in self.hash_lists:
-            all_paths.update(hash_list.renamed_path_with_previous_path(self.get_root_path()))
+            renamed = hash_list.renamed_path_with_previous_path(self.get_root_path())
+            if len(renamed) == 0:
+                continue
+            all_paths = {previous: renamed.get(current, current) for previous, current in all_paths.items()}
+            all_paths.update(renamed)
+            for current in renamed.values():
+                if current not in renamed:
+                    all_paths.pop(current, None)
         for child_history in self.child_histories:
             all_paths.update(child_history.renamed_path_with_previous_path())
-        # a file can be renamed in more than one generation (a -> b, later b -> c):
-        # map every former path to the latest path instead of to the next one only
-        for previous_path in all_paths:
-            visited = {previous_path}
-            while all_paths[previous_path] in all_paths and all_paths[previous_path] not in visited:
-                visited.add(all_paths[previous_path])
-                all_paths[previous_path] = all_paths[all_paths[previous_path]]
         return all_paths
 
     def hash_list_with_file_name(self, file_name) -> Optional[MHLHashList]:
